@@ -358,6 +358,8 @@ def run(c, facts, tier):
     for key, fn in sorted(facts.fns.items()):
         if fn.test or fn.module[:1] != ("find_parser",) or not F.norm_ty(fn.node["output"]).startswith("PResult<"):
             continue
+        if (fn.node.get("generics") or "").strip("<> ") or (fn.impl is not None and (fn.impl.get("generics") or "").strip("<> ")):
+            continue  # generic parsers are checked through their instantiations (reachability walk below)
         if key == an.role("parse_inner"):
             continue  # the inner parse function is imperative; its statements are checked one by one by C06.empty / C13.*
         fb = b.fn_ir(key)
@@ -368,6 +370,8 @@ def run(c, facts, tier):
         opq = [o.get("src", "")[:50] for o in g.opaque_nodes(fb, follow=False)]
         ok = not extra and not opq
         c.ob("C05.shape", key, "body is a composition of modelled parsers", ok if ok else None, "unrecognised statements %s; unmodelled parser expressions %s; value-level lets %s" % (extra, opq, lets), nontrivial=False)
+    reach_opq = [o.get("src", "")[:50] for o in g.opaque_nodes(b.fn_ir(tokfn), follow=True)]
+    c.ob("C05.shape", tokfn, "every parser reachable from token() is modelled (generic instantiations included)", not reach_opq, "unmodelled: %s" % reach_opq if reach_opq else "no opaque node in the grammar reachable from token()", nontrivial=False)
     c.floor("parser functions", nshape, 25)
     # ------------------------------------------------------------ C05.arg-lang
     arg_lang(c, facts, b, g, spec, scope, prim)
